@@ -75,16 +75,30 @@ Touch(c1, c2) == /\ Common(c1, c2) = 0
                  /\ \/ (c1[1] + c1[2] - c2[1]) % D = 0
                     \/ (c2[1] + c2[2] - c1[1]) % D = 0
 
-(* ---- the library's algorithm, in doubled units ---- *)
+(* ---- the library's algorithm, in doubled units ----
+   _align_phase_with shifts by a period when the distance exceeds half a period (strict
+   comparisons).  At a distance of exactly half a period the floating-point outcome depends on
+   rounding, so the model carries the tie rule as a parameter r (FALSE: as written, no shift;
+   TRUE: shift) and flags configurations in which some alignment is such a tie. *)
 X(x, i) == 2 * (x[i] % P)
-Align(a, target) == a + (IF a < target - P THEN D ELSE 0) - (IF a > target + P THEN D ELSE 0)
-AlgHi(x, i) == (X(x, i) + Align(X(x, (i % Len(x)) + 1), X(x, i))) \div 2
-AlgLo(x, i) == (Align(X(x, ((i - 2) % Len(x)) + 1), X(x, i)) + X(x, i)) \div 2
-AlgOv(t, s) == LET x0 == AlgLo(cfg.tgt, t)
-                   x1 == AlgHi(cfg.tgt, t)
-                   y0 == Align(AlgLo(cfg.src, s), x0)
-                   y1 == Align(AlgHi(cfg.src, s), x0)
-               IN  Max(Min(x1, y1) - Max(x0, y0), 0)
+Align(a, target, r) ==
+   a + (IF a < target - P \/ (r /\ a = target - P) THEN D ELSE 0)
+     - (IF a > target + P \/ (r /\ a = target + P) THEN D ELSE 0)
+AlignTie(a, target) == a = target - P \/ a = target + P
+NextOf(x, i) == X(x, (i % Len(x)) + 1)
+PrevOf(x, i) == X(x, ((i - 2) % Len(x)) + 1)
+AlgHi(x, i, r) == (X(x, i) + Align(NextOf(x, i), X(x, i), r)) \div 2
+AlgLo(x, i, r) == (Align(PrevOf(x, i), X(x, i), r) + X(x, i)) \div 2
+AlgOv(t, s, r) == LET x0 == AlgLo(cfg.tgt, t, r)
+                      x1 == AlgHi(cfg.tgt, t, r)
+                      y0 == Align(AlgLo(cfg.src, s, r), x0, r)
+                      y1 == Align(AlgHi(cfg.src, s, r), x0, r)
+                  IN  Max(Min(x1, y1) - Max(x0, y0), 0)
+Edge == \/ \E x \in {cfg.src, cfg.tgt} : \E i \in 1..Len(x) :
+            AlignTie(NextOf(x, i), X(x, i)) \/ AlignTie(PrevOf(x, i), X(x, i))
+        \/ \E t \in 1..NT, s \in 1..NS, r \in BOOLEAN :
+            \/ AlignTie(AlgLo(cfg.src, s, r), AlgLo(cfg.tgt, t, r))
+            \/ AlignTie(AlgHi(cfg.src, s, r), AlgLo(cfg.tgt, t, r))
 
 (* ---- preconditions ---- *)
 Gaps(x) == {x[i + 1] - x[i] : i \in 1..Len(x) - 1} \cup {x[1] + P - x[Len(x)]}
@@ -172,7 +186,8 @@ Tiling == HasCells =>
 RowMeasure == HasOv => \A t \in 1..NT : RowSum(t) = tcell[t][2]
 ColMeasure == HasOv => \A s \in 1..NS : ColSum(s) = scell[s][2]
 (* the library's phase-alignment algorithm computes the geometric overlap *)
-AlgorithmSound == (HasOv /\ Safe) => \A t \in 1..NT : \A s \in 1..NS : AlgOv(t, s) = ov[t][s]
+AlgorithmSound == (HasOv /\ Safe) =>
+   \A t \in 1..NT : \A s \in 1..NS : \A r \in BOOLEAN : AlgOv(t, s, r) = ov[t][s]
 NonNegative == HasW => \A t \in 1..NT : \A s \in 1..NS : RLe(Zero, w[t][s])
 RowsSumToOne == HasW => \A t \in 1..NT : RSum(w[t], 1, NS) = One
 ConstantsReproduced == HasW => \A t \in 1..NT : \A c \in {<<1, 1>>, <<-3, 2>>} :
@@ -203,7 +218,9 @@ Export ==
    /\ pc = "weights" =>
         PrintT(<<"CASE", ToJson([kind |-> "lonw", key |-> Key, grid |-> cfg.grid, safe |-> Safe,
                                  tcell |-> tcell, scell |-> scell, ov |-> ov, w |-> w,
-                                 algov |-> [t \in 1..NT |-> [s \in 1..NS |-> AlgOv(t, s)]],
+                                 algov |-> [t \in 1..NT |-> [s \in 1..NS |-> AlgOv(t, s, FALSE)]],
+                                 algov2 |-> [t \in 1..NT |-> [s \in 1..NS |-> AlgOv(t, s, TRUE)]],
+                                 edge |-> Edge,
                                  field |-> [s \in 1..NS |-> Field(s)]])>>)
    /\ pc = "applied" =>
         PrintT(<<"CASE", ToJson([kind |-> "lona", key |-> Key, mask |-> mask, res |-> res])>>)
